@@ -2346,6 +2346,24 @@ func runeToByteFindings(info *types.Info, body *ast.BlockStmt) (bad []*ast.CallE
 						guarded = true
 					}
 				}
+				// `switch c { case 'u', 'U': … byte(c) … }`: inside the clause c is one of its labels
+				if i >= 2 && len(par.List) > 0 {
+					if sw, ok := stack[i-2].(*ast.SwitchStmt); ok && sw.Tag != nil && exprStr(unparen(sw.Tag)) == name {
+						isLabel := false
+						small := true
+						for _, e := range par.List {
+							if child == ast.Node(e) {
+								isLabel = true
+							}
+							if kv, ok := constInt(info, e); !ok || kv < 0 || kv > 255 {
+								small = false
+							}
+						}
+						if small && !isLabel {
+							guarded = true
+						}
+					}
+				}
 			case *ast.FuncLit:
 				i = -1
 			}
@@ -2361,6 +2379,53 @@ func runeToByteFindings(info *types.Info, body *ast.BlockStmt) (bad []*ast.CallE
 // conversions of the reviewed tree that are meant to keep the low byte
 var confirmedRuneCut = map[string]string{
 	"parser.DecodeEscape|byte(cout)": "an octal escape in a bytes literal: three octal digits reach 0o777 and Python 3.4 keeps the low eight bits (b'\\777' == b'\\xff'); the value is a number written by the programmer, not a character of the text",
+}
+
+// underBoolParamTest: the node lies in the body of an `if p` (or `if p && …`) where p is a bool parameter of fd.
+func underBoolParamTest(info *types.Info, fd *ast.FuncDecl, target ast.Node) bool {
+	params := map[types.Object]bool{}
+	for _, f := range fd.Type.Params.List {
+		for _, nm := range f.Names {
+			if o := info.Defs[nm]; o != nil {
+				if b, ok := o.Type().Underlying().(*types.Basic); ok && b.Kind() == types.Bool {
+					params[o] = true
+				}
+			}
+		}
+	}
+	found := false
+	var stack []ast.Node
+	ast.Inspect(fd.Body, func(n ast.Node) bool {
+		if n == nil {
+			stack = stack[:len(stack)-1]
+			return true
+		}
+		if n == target {
+			for i, s := range stack {
+				ifs, ok := s.(*ast.IfStmt)
+				if !ok || i+1 >= len(stack) || stack[i+1] != ast.Node(ifs.Body) {
+					continue
+				}
+				var mentions func(e ast.Expr) bool
+				mentions = func(e ast.Expr) bool {
+					e = unparen(e)
+					if id, ok := e.(*ast.Ident); ok {
+						return params[info.Uses[id]]
+					}
+					if be, ok := e.(*ast.BinaryExpr); ok && be.Op == token.LAND {
+						return mentions(be.X) || mentions(be.Y)
+					}
+					return false
+				}
+				if mentions(ifs.Cond) {
+					found = true
+				}
+			}
+		}
+		stack = append(stack, n)
+		return true
+	})
+	return found
 }
 
 func runRuneNotCut(c *Ctx, r *Rep) {
@@ -2408,6 +2473,13 @@ func runRuneNotCut(c *Ctx, r *Rep) {
 				for _, b := range bad {
 					if why, ok := confirmedRuneCut[id+"|"+exprStr(b)]; ok {
 						r.okTrivial("runecut|"+id+"|"+exprStr(b), b.Pos(), "reviewed: %s", why)
+						continue
+					}
+					// the same reviewed exception wherever it is written inside DecodeEscape (a closure shared by the octal and
+					// hex escapes, another name for the value): the conversion sits under a test of the function's own
+					// bytes-mode parameter
+					if id == "parser.DecodeEscape" && underBoolParamTest(p.TypesInfo, fd, b) {
+						r.okTrivial("runecut|"+id+"|byte(cout)", b.Pos(), "reviewed: %s", confirmedRuneCut["parser.DecodeEscape|byte(cout)"])
 						continue
 					}
 					r.bad("runecut|"+id+"|"+exprStr(b), b.Pos(), "`%s` cuts a character down to its low byte without a test bounding it below 256: every character whose low byte equals the intended one is taken for it ('š' U+0161 for 'a'), so searching, stripping or classifying by such a table answers for the wrong characters", exprStr(b))
